@@ -119,6 +119,18 @@ inductive Stmt where
   | lastMaxBy (v : Var) (siteP siteU : Nat) (cands : List NExpr)
   /-- `self.map.swap_remove_index(e)` as the function's result -/
   | retMapSwapRemoveIndex (e : NExpr)
+  /-- `self.map.swap_remove_full(item).map(|(i, item, priority)| { body; (item, priority, res) })` as the function's
+      result: register `key` holds the key that is looked up, register `vi` receives the slot index -/
+  | removeFullThen (key vi : Var) (body : Stmt) (res : NExpr)
+  /-- `if let Some(&v) = heap.get(e) { t } else { f }` (bounds-checked read) -/
+  | ifHeapGet (v : Var) (e : NExpr) (t f : Stmt)
+  /-- `v = *[c1, …].iter().max_by_key(|i| self.store.get_priority_from_position(**i)).unwrap()`: last maximum
+      of the positions by the priority found there -/
+  | lastMaxByPos (v : Var) (siteU : Nat) (cands : List NExpr)
+  /-- `Some(e)` as the function's result -/
+  | retSomeN (e : NExpr)
+  /-- `None` as the function's result -/
+  | retNone
   deriving Repr
 
 /-- a translated function: its `usize` parameters, its priority parameters, its body -/
@@ -138,6 +150,8 @@ inductive Val (P : Type) where
   | nat (n : Nat)
   | prio (p : P)
   | optEntry (e : Option (Item × P))
+  | optRemoved (r : Option (Item × P × Nat))
+  | optNat (r : Option Nat)
 
 inductive Flow (P : Type) where
   | normal
@@ -266,6 +280,17 @@ def lastMax : List (Nat × P) → Option (Nat × P)
   | [] => none
   | x :: xs => some (xs.foldl (fun acc y => if y.2 < acc.2 then acc else y) x)
 
+/-- the keys `get_priority_from_position(c)` of the candidates, in order (through the translated function) -/
+def keysByPrioAt (callf : CallF P) : Store P → List Nat → R (Store P × List (Nat × P))
+  | s, [] => pure (s, [])
+  | s, c :: cs => do
+    let (s, v) ← callf .storePrioAt s [c] []
+    match v with
+    | .prio p => do
+      let (s, rest) ← keysByPrioAt callf s cs
+      pure (s, (c, p) :: rest)
+    | _ => .error stuck
+
 /-! ## statements -/
 
 /-- `for k in (0..=h).rev()` -/
@@ -386,6 +411,30 @@ def execStep (rec : Stmt → St P → R (St P × Flow P)) (callf : CallF P) : St
     match st.s.map.swapRemoveIndex i with
     | some (en, map) => pure (st.setS { st.s with map := map }, .ret (.optEntry (some en)))
     | none => pure (st, .ret (.optEntry none))
+  | .removeFullThen key vi body res, st =>
+    match st.s.map.swapRemoveFull (st.n key) with
+    | none => pure (st, .ret (.optRemoved none))
+    | some (i, e, map) => do
+      let (st, fl) ← execStep rec callf body ((st.setS { st.s with map := map }).setN vi i)
+      match fl with
+      | .normal => do
+        let p ← evalN st res
+        pure (st, .ret (.optRemoved (some (e.1, e.2, p))))
+      | _ => .error stuck
+  | .ifHeapGet v e t f, st => do
+    let i ← evalN st e
+    match st.s.heap[i]? with
+    | some x => execStep rec callf t (st.setN v x)
+    | none => execStep rec callf f st
+  | .lastMaxByPos v siteU cands, st => do
+    let cs ← evalNs st cands
+    let (s, l) ← keysByPrioAt callf st.s cs
+    let c ← unwrapO (lastMax l) siteU
+    pure ((st.setS (s.tick (l.length - 1))).setN v c.1, .normal)
+  | .retSomeN e, st => do
+    let x ← evalN st e
+    pure (st, .ret (.optNat (some x)))
+  | .retNone, st => pure (st, .ret (.optNat none))
 
 /-- call of a translated function: fresh registers holding the arguments, run the body, take the
 returned value (falling off the end returns `()`) -/
